@@ -840,6 +840,21 @@ def _run_and_process_generation(
     progress: ProgressTracker | None,
     cache: _CacheBase | None = None,
 ) -> None:
+    if executor is None:
+        # Without an executor a "submitted" function has already run. Store its results
+        # right away, such that they are not lost if a later function of this generation raises.
+        for func in generation:
+            tasks = _submit_generation(
+                run_info,
+                [func],
+                store,
+                fixed_indices,
+                executor,
+                progress,
+                cache,
+            )
+            _process_generation([func], tasks, store, outputs)
+        return
     tasks = _submit_generation(
         run_info,
         generation,
